@@ -22,7 +22,6 @@ Definition S8c := "C11-S8c-gridsearch-unfitted-X".
 Definition S16 := "C11-S16-loglikelihood-lengths".
 Definition S17 := "C11-S17-fit-quantile-fitted".
 Definition S18 := "C11-S18-poisson-y-ravel".
-Definition S22 := "C11-S22-fit-quantile-weights-after-break".
 Definition L1 := "C11-L1-accuracy-length-checked-after-predict".   (* benign: ValueError is raised, but only after X was used *)
 
 Definition exceptions : list exc := [
@@ -34,10 +33,6 @@ Definition exceptions : list exc := [
   (* ExpectileGAM.fit_quantile on a fitted model: (predict(X) > y).mean() before any validation of y *)
   (* PoissonGAM._exposure_to_weights: y.ravel() on the raw argument (list / tuple -> AttributeError) *)
   (* LogisticGAM.accuracy / score: check_X_y(mu, y) runs after mu = predict_mu(X) *)
-  (* ExpectileGAM.fit_quantile on a fitted model validates weights only inside self.fit(..) in the bisection loop,
-     after `if _within_tol(ratio, quantile, tol): break`: when the first ratio is already within tol they are never read *)
-  mk_exc S22 None "ExpectileGAM" "fit_quantile" AW KNonFinite None true;
-  mk_exc S22 None "ExpectileGAM" "fit_quantile" AW KLen None true;
   mk_exc L1 None "LogisticGAM" "accuracy" AX KLen None true;
   mk_exc L1 None "LogisticGAM" "score" AX KLen None true
 ].
